@@ -351,8 +351,13 @@ func HelperSuccessResults(v ssa.Value) ([]ResVal, bool) {
 	for _, rv := range rvs {
 		f := rv.Ret.Parent()
 		k := errResultIndex(f)
-		if k >= 0 && !isNilConst(unwrapErr(an.Result(rv.Ret, k))) {
-			continue
+		if k >= 0 {
+			ev := an.Result(rv.Ret, k)
+			// a return whose error is surely non-nil is a failure; one whose error value may be nil at run time counts as a
+			// possible success
+			if !isNilConst(unwrapErr(ev)) && errorSurelyNonNil(ev, rv.Ret, f) {
+				continue
+			}
 		}
 		out = append(out, rv)
 	}
